@@ -20,6 +20,14 @@ CHECKS = {
         "left early by return; the specification's truthiness is the property's (only false, 0, \"\" and nil are falsy) and its "
         "bindings are the documented ones. The real library must render the same bytes (maps compared as multisets).",
    design_ref="DESIGN.md §5 C05", note=EXEC_TRUST),
+ "C08": dict(
+   technique="TLA+ JetExec + template-set operators (EffBlock: own > later imports > earlier imports > extended chain; RootOf) "
+             "model-checked by TLC over Gen_C08 template sets; every behaviour replayed on the real library",
+   text="TLC enumerates template sets of six files (extends chains 0-2, imports, every subset of files defining a block), five "
+        "yield placements, every ordered selection of named arguments with three kinds of default, content by caller / default / "
+        "none / nested, and histories in which two entry templates share an imported library; each definition body prints a "
+        "unique marker, so the real output shows which definition ran. Exhaustive over the bounded family.",
+   design_ref="DESIGN.md §5 C08", note=EXEC_TRUST),
  "C09": dict(
    technique="TLA+ JetExec (DoInclude/IncludeExit, DoExec/ExecExit with discard writer, return register, root-ancestor selection) "
              "model-checked by TLC over Gen_C09; every behaviour replayed on the real interpreter",
